@@ -38,6 +38,12 @@ def backend_cases(chk, n_cases, exprs, expected, meta, degenerate=False):
         causal = rng.random() < 0.5
         keys = list(range(-(n + 2), max(n, dkmax or 0) + 3))
         table = ps.int_table(rng, d2, keys, causal)
+        trivial_dk = None
+        if it % 5 == 1 and n >= 3:
+            # a trivial influence (all ones: the correlation function passes through zero) at an intermediate distance,
+            # non-trivial ones beyond it
+            trivial_dk = rng.randint(1, n - 2)
+            table[trivial_dk] = np.ones((d2, d2), dtype=complex)
         if causal:
             u = rng.choice(ps.UNITARIES_G)
             props = [(ps.tp_matrix(rng, d2), ps.tp_matrix(rng, d2)) for _ in range(n)]
@@ -49,7 +55,7 @@ def backend_cases(chk, n_cases, exprs, expected, meta, degenerate=False):
         rho0 = gint(rng, (d2,), -2, 2)
         if not rho0.any():
             rho0[0] = 1
-        info = {"n": n, "dkmax": dkmax, "rect": rect, "family": "causal" if causal else "generic"}
+        info = {"n": n, "dkmax": dkmax, "rect": rect, "family": "causal" if causal else "generic", "trivial_influence_at": trivial_dk}
         # --- TEMPO: every step
         try:
             got, log = ps.run_tempo_backend(table, rect, u, props, rho0, n, dkmax)
@@ -125,6 +131,12 @@ def api_search(chk, n_cases):
         par = oqupy.TempoParameters(dt=dt, epsrel=eps, dkmax=dkmax, add_correlation_time=tau, subdiv_limit=None)
         corr = oqupy.PowerLawSD(alpha=rng.choice([0.05, 0.3]), zeta=rng.choice([1, 3]), cutoff=rng.choice([1.0, 4.0]),
                                 cutoff_type=rng.choice(["exponential", "gaussian"]), temperature=rng.choice([0.0, 0.5]))
+        if it == 1:
+            # every run: 'agreement tightens with the tolerance' where the long-range influences are nearly trivial: weak
+            # coupling, unlimited memory, many steps, a tight tolerance (the whole correlation tail still has to be kept)
+            eps, n, dkmax, tau, dt = 1e-9, 24, None, None, 0.1
+            par = oqupy.TempoParameters(dt=dt, epsrel=eps, dkmax=None, subdiv_limit=None)
+            corr = oqupy.PowerLawSD(alpha=rng.choice([0.0005, 0.001]), zeta=1, cutoff=10.0, cutoff_type="exponential", temperature=0.0)
         op = rng.choice([0.5 * sz, 0.5 * sx + 0.2 * sz, np.diag([1.0, 1.0]) * 0.3 + 0.5 * sy])
         three = (it % 4 == 3)
         if three:
